@@ -172,7 +172,7 @@ let dispatch cmd tyname =
   | "SUMMEP" -> run_ty (ty_sum ty_mep) cmd
   | "SUMGA" -> run_ty (ty_sum ty_ga) cmd
   | "SUMDE" -> run_ty (ty_sum ty_de) cmd
-  | "DIST" -> run_ty ty_dist cmd
+  | "DIST" | "DISTX" -> run_ty ty_dist cmd
   | "MAT" -> run_ty ty_mat cmd
   | _ -> "BADTYPE"
 
